@@ -24,6 +24,8 @@ class _Replay(dict):
             return "h_lru.cache_option"
         if "#signals:" in key and key.startswith(("LRUCacheStore.store_blob#", "LRUCacheStore.sync_paths#", "LRUCacheStore.fetch_blob#")):
             return "h_lru.faulty_inner"
+        if key.startswith(("LRUCache.get#", "LRUCache.put#")):
+            return "h_lru.retention_bound"
         if key.startswith("LRUCacheStore.") and "#ensures:" in key:
             return "h_lru.lockstep_readback"
         return default
